@@ -5,6 +5,7 @@ package main
 import (
 	"fmt"
 	"os"
+	"time"
 
 	"github.com/itchio/wharf/zzverif/vsched"
 
@@ -14,6 +15,12 @@ import (
 func init() { schedSubs = schedBody }
 
 func schedBody(w *runner.W) {
+	left := 0
+	for i, sc := range scenarios(w.Quick()) {
+		if heavy(sc) || w.Owns(i) {
+			left++
+		}
+	}
 	var sub *runner.Sub[Scenario]
 	sub = runner.NewSub(w, "interleavings", func(sc Scenario, r *runner.Rec) {
 		p, err := prepare(sc, w.Scratch(), w.Seed)
@@ -71,7 +78,7 @@ func schedBody(w *runner.W) {
 			opts.ShardIdx, opts.ShardN = w.Index(), w.N()
 		}
 		reported := map[string]bool{}
-		st := vsched.Explore(opts, bodyFn, func(out vsched.Result) bool {
+		checkFn := func(out vsched.Result) bool {
 			if fp, msg := judge(out); fp != "" && !reported[fp] {
 				reported[fp] = true
 				again := vsched.RunOnce(vsched.Options{PreemptionBound: sc.Bound, StepBudget: 50000}, out.Choices, bodyFn)
@@ -84,7 +91,27 @@ func schedBody(w *runner.W) {
 				sub.Report(c, fp, "%s; schedule=%v", msg, out.Choices)
 			}
 			return true
-		})
+		}
+		var st vsched.Stats
+		completed := sc.Bound
+		if w.Quick() {
+			st = vsched.Explore(opts, bodyFn, checkFn)
+		} else {
+			// thorough: iterative context bounding inside a time slice
+			left--
+			opts.Deadline = sliceDeadline(w.Deadline(), left+1)
+			var unb bool
+			st, completed, unb = vsched.ExploreIterative(opts, 0, sc.Bound, bodyFn, checkFn)
+			if unb {
+				completed = 99
+			}
+		}
+		if !w.Quick() {
+			sub.MinNote("bound_completed:"+fmt.Sprintf("%s/%s%s/p%d/cap%d/%dfiles/slicing=%v/bigsig=%d", sc.Kind, sc.OldS, sc.Comp, sc.Partitions, sc.Cap, len(sc.New), sc.Slicing, sc.BigSig), completed)
+			if !st.Complete {
+				sub.Incomplete("some scenarios ended below their target bound, see bound_completed notes")
+			}
+		}
 		if os.Getenv("VERIF_DEBUG") != "" {
 			fmt.Fprintf(os.Stderr, "scenario %+v: %+v\n", sc, st)
 		}
@@ -134,3 +161,14 @@ func schedBody(w *runner.W) {
 }
 
 func heavy(sc Scenario) bool { return sc.Bound >= 2 || sc.Kind == "rediff" && sc.Bound >= 1 }
+
+// sliceDeadline gives one of n remaining scenarios its share of the time left.
+func sliceDeadline(global time.Time, n int) time.Time {
+	if global.IsZero() {
+		return global
+	}
+	if n < 1 {
+		n = 1
+	}
+	return time.Now().Add(time.Until(global) / time.Duration(n))
+}
